@@ -240,10 +240,14 @@ reg("C19",
          "model and against the generator's intent, plus the String()->Set round trip; sequences of 2..4 -rate flags); 1..8 repeated -header lines with "
          "random spacing/case and malformed lines; -max-body in every documented notation, -1 and malformed; -dns-ttl; "
          "1..6 repeated -connect-to tuples; -resolvers lists (IPv4 with/without port, invalid, IPv6 = declared don't-care); "
+         "the attack command itself with limited/unlimited rates, with/without -duration and -max-workers in random flag order (refusal observed), and with -dns-ttl in {-1,0,10s,1m,default} "
+         "against a name served by an in-process name server given with -resolvers (lookups counted); "
          "every case is tagged non-trivial",
     clauses={1: "accepted -rate N/D does not store exactly N per D", 2: "-rate 0/infinity rejected", 3: "-rate 0/infinity does not give an unlimited rate that demands -max-workers",
              4: "malformed -rate accepted", 5: "printed rate does not parse back to the same rate (implementation round trip)", 6: "printed rate read by the model differs from the stored rate",
              7: "max-workers guard trips for a limited rate", 8: "-rate given several times: a later well-formed occurrence does not replace the rate as a whole, or a malformed one is accepted", 30: "well-formed -header rejected", 31: "header values not accumulated in order under the exact key", 32: "a header key is missing",
+             81: "the attack command does not refuse exactly the unlimited rates given without -max-workers", 82: "an attack command that was not refused did not run",
+             83: "-dns-ttl through the command: -1 still caches, or 0 / a duration looks the name up for every connection",
              43: "-max-body value differs from the documented meaning", 53: "-dns-ttl value differs from the documented meaning",
              62: "well-formed -connect-to rejected", 63: "-connect-to mapping differs from the documented one", 73: "-resolvers addresses not normalised as documented"},
     assumptions=["time.ParseDuration, strconv.Atoi, datasize.UnmarshalText, net.SplitHostPort, net.ParseIP are library code: reference models in Base/Duration.v, Base/Str.v, Model/Flags.v, sampled on every run",
